@@ -2,10 +2,11 @@ import Pog.Drv.Util
 import Pog.Model.Tracker
 import Pog.Model.Parser
 import Pog.Model.ParserSpec
+import Pog.Lemmas.Simple2Dec
 open Lean Pog Pog.Drv
 namespace Pog.Drv
 
-def parserFns : List String := ["trackerRun", "parseSpec"]
+def parserFns : List String := ["trackerRun", "parseSpec", "parserInFragment2"]
 
 private def getOptStr (j : Json) : Except String (Option Str) :=
   if j.isNull then pure none else do pure (some (← getStr j))
@@ -185,6 +186,18 @@ def parserRun (f : String) (a : Array Json) : Except String Json := do
           Json.bool (decide (Prs.Faithful decls s d.1))]) decls),
       ("states", Json.arr ((s.tr.states.toArray.qsort (fun a b => String.ofList a.1 < String.ofList b.1)).map
           (fun (n, v) => Json.arr #[jstr n, Json.str (stateName v)])))])
+  | "parserInFragment2" =>
+    -- [maxDepth, fuel, decls, [[name, rank]…]] -> does the document satisfy the hypotheses of C02b.parse_faithful_partial2
+    -- for `buildSchemas maxDepth fuel decls` (C02b.inFragment2_sound)?
+    let md ← getNat (← argN a 0)
+    let fuel ← getNat (← argN a 1)
+    let decls ← getList (fun kv => do
+      let p ← kv.getArr?
+      pure ((← getStr (← argN p 0)), (← getNode (← argN p 1)))) (← argN a 2)
+    let rs ← getList (fun kv => do
+      let p ← kv.getArr?
+      pure ((← getStr (← argN p 0)), (← getNat (← argN p 1)))) (← argN a 3)
+    pure (Json.bool (Prs.inFragment2 md fuel decls rs))
   | _ => throw s!"unknown function {f}"
 
 def dispatchParser : Dispatch := fun f a _ =>
